@@ -224,6 +224,8 @@ func (g *c17gen) decl(nd c17node) string {
 		}
 		ht := "0"
 		for _, t := range nd.refs {
+			// (typed constants only in constGroup, with integer types: go/types skips the initializer of a
+			// constant whose declared type is not a constant type, so its uses would be missing from the reference)
 			if nd.kind == 'v' && t.kind == 't' && ht == "0" && g.r.Intn(2) == 0 {
 				ht = c17j(1, g.refType(t))
 				continue
@@ -529,6 +531,97 @@ func (g *c17gen) random(maxn int) string {
 	return c17j("sort", reps, strings.Join(items, " "))
 }
 
+// const groups with implicit repetition: `const ( A T = f(iota) + c; B; C )`, the type, the functions and the
+// constants the repeated type and expression mention being declared before or AFTER the group: every
+// constant that inherits type and expression depends on everything they mention
+func (g *c17gen) constGroup() string {
+	r := g.r
+	names := r.Perm(12)
+	next := 0
+	fresh := func() int { x := names[next]; next++; return x }
+	var others []string // the declarations the group refers to
+	var pool []c17target
+	for i, n := 0, 1+r.Intn(3); i < n; i++ {
+		x := fresh()
+		switch r.Intn(4) {
+		case 0:
+			others = append(others, c17j("F", x, "0 0 0"))
+			pool = append(pool, c17target{x, 'f'})
+		case 1:
+			others = append(others, c17j("C 1 1", x, "0 1 l"))
+			pool = append(pool, c17target{x, 'c'})
+		case 2:
+			others = append(others, c17j("V 1 1", x, "0 1 l"))
+			pool = append(pool, c17target{x, 'v'})
+		default:
+			others = append(others, c17j("T 1", x, "int"))
+			pool = append(pool, c17target{x, 't'})
+		}
+	}
+	var types []int
+	for i, n := 0, 1+r.Intn(2); i < n; i++ {
+		x := fresh()
+		if len(types) > 0 && r.Intn(3) == 0 {
+			others = append(others, c17j("T 1", x, "i", types[0])) // type x2 x1
+		} else {
+			others = append(others, c17j("T 1", x, "int"))
+		}
+		types = append(types, x)
+	}
+	ownSpec := func(nnames int) string {
+		var ns, vals []string
+		for i := 0; i < nnames; i++ {
+			ns = append(ns, fmt.Sprint(fresh()))
+			es := []string{"i 901"}
+			for _, t := range pool {
+				if r.Intn(3) == 0 {
+					es = append(es, g.refExpr(t))
+				}
+			}
+			if r.Intn(4) == 0 {
+				es = append(es, g.shadowExpr(pool[r.Intn(len(pool))].name, true))
+			}
+			vals = append(vals, c17sum(es))
+		}
+		ht := "0"
+		if r.Intn(4) != 0 {
+			ht = c17j("1 i", types[r.Intn(len(types))])
+		}
+		return c17j(nnames, strings.Join(ns, " "), ht, nnames, strings.Join(vals, " "))
+	}
+	inherit := func(nnames int) string {
+		var ns []string
+		for i := 0; i < nnames; i++ {
+			ns = append(ns, fmt.Sprint(fresh()))
+		}
+		return c17j(nnames, strings.Join(ns, " "), "0 0")
+	}
+	var specs []string
+	width := 1
+	if r.Intn(5) == 0 {
+		width = 2
+	}
+	specs = append(specs, ownSpec(width))
+	for i, n := 0, 1+r.Intn(3); i < n && next < len(names)-2*width; i++ {
+		if i > 0 && r.Intn(4) == 0 {
+			specs = append(specs, ownSpec(width))
+		} else {
+			specs = append(specs, inherit(width))
+		}
+	}
+	items := append(others, c17j("C", c17list(specs)))
+	r.Shuffle(len(items), func(a, b int) { items[a], items[b] = items[b], items[a] })
+	if r.Intn(3) != 0 { // most often the group comes first: everything it mentions is declared after it
+		for i, it := range items {
+			if strings.HasPrefix(it, "C ") && strings.Contains(it, " 0 0") {
+				items[0], items[i] = items[i], items[0]
+				break
+			}
+		}
+	}
+	return c17j("sort 2", strings.Join(items, " "))
+}
+
 func c17generate(r *rand.Rand, tier string, emit func(string)) {
 	g := &c17gen{r: r}
 	maxn := 4
@@ -545,9 +638,12 @@ func c17generate(r *rand.Rand, tier string, emit func(string)) {
 			g.exhaustive(n, emit, 1, false)
 		}
 	}
-	nr, big := 1500, 12
+	nr, big, ng := 1500, 12, 400
 	if tier == "thorough" {
-		nr, big = 30000, 40
+		nr, big, ng = 30000, 40, 8000
+	}
+	for i := 0; i < ng; i++ {
+		emit(g.constGroup())
 	}
 	for i := 0; i < nr; i++ {
 		if i%3 == 0 {
@@ -565,7 +661,8 @@ func init() {
 			"each rendered to Go source with seeded-random kinds (const/var/type/func; one variant with uniform kinds), names permuted against source order, " +
 			"references placed in initializers, types, signatures and bodies at block depth 0-3, absent pairs turned with probability 1/4 into a bound mention " +
 			"(parameter, result, local var/const/type, :=, range, func literal parameter, label, init statements, field, struct key) and present pairs with probability 1/5 " +
-			"accompanied by a non-covering binding of the same name; plus random larger inputs (up to 12 / 40 declarations) with type clusters, const groups with iota and " +
+			"accompanied by a non-covering binding of the same name; plus 400 / 8000 const groups with implicit repetition (typed or untyped first spec, 1-2 names per spec, later specs inheriting type and iota expression, " +
+			"the types, functions, constants and variables they mention declared before or after the group); plus random larger inputs (up to 12 / 40 declarations) with type clusters, const groups with iota and " +
 			"inherited expressions, multi-name and multi-value var specs, methods, blank variables, duplicate and undeclared names, package/import clauses and statements splitting the runs. " +
 			"Every input is sorted 2-8 times by the real dep.Sorter. Non-trivial: every op (distinct by op text).",
 		Gen:        c17generate,
